@@ -5,6 +5,7 @@ package zap
 import (
 	"errors"
 
+	"go.uber.org/zap/internal/exit"
 	vrt "go.uber.org/zap/internal/vrt"
 	"go.uber.org/zap/zapcore"
 )
@@ -225,4 +226,62 @@ func vHasKeyDeep(v *vrt.JVal, key string) bool {
 		}
 	}
 	return false
+}
+
+// ---- a failing core next to a healthy one, at the levels after which control may be lost
+
+type vSnapHook struct {
+	errOut *vLineSink
+	seen   *int
+}
+
+// OnWrite runs where the process would end: what is on the error output now is all that will ever be there.
+func (h vSnapHook) OnWrite(*zapcore.CheckedEntry, []zapcore.Field) { *h.seen = len(h.errOut.lines) }
+
+//verif: prop=C10 bounds="logger over a tee of a failing core and a recording core (either order), with an error output; one entry at Error, DPanic (development on/off), Panic or Fatal through Logger or SugaredLogger, terminal hooks {default (panic recovered / exit stubbed), custom hook that looks at the error output at the moment the process would end, Goexit}: the healthy core has the entry, and the failure is on the error output by the time the terminal action runs"
+func VC10TerminalFailure() {
+	stub := exit.Stub()
+	defer stub.Unstub()
+	rec := vNewCore("rec", zapcore.DebugLevel)
+	bad := vNewCore("bad", zapcore.DebugLevel)
+	bad.werr = errors.New("core failed")
+	var core zapcore.Core
+	if vrt.Choice("order", 2) == 0 {
+		core = zapcore.NewTee(bad, rec)
+	} else {
+		core = zapcore.NewTee(rec, bad)
+	}
+	errOut := &vLineSink{}
+	seen := -1
+	opts := []Option{ErrorOutput(errOut)}
+	dev := vrt.Choice("development", 2) == 1
+	if dev {
+		opts = append(opts, Development())
+	}
+	hookKind := vrt.Choice("hook", 3)
+	switch hookKind {
+	case 1:
+		opts = append(opts, WithPanicHook(vSnapHook{errOut, &seen}), WithFatalHook(vSnapHook{errOut, &seen}))
+	case 2:
+		opts = append(opts, WithPanicHook(zapcore.WriteThenGoexit), WithFatalHook(zapcore.WriteThenGoexit))
+	}
+	log := New(core, opts...)
+	lvl := []zapcore.Level{ErrorLevel, DPanicLevel, PanicLevel, FatalLevel}[vrt.Choice("level", 4)]
+	sugared := vrt.Choice("front", 2) == 1
+	vRunMaybeGoexit(func() {
+		defer func() { _ = recover() }()
+		if sugared {
+			log.Sugar().Logw(lvl, "m", "k", 1)
+		} else {
+			log.Log(lvl, "m", Int("k", 1))
+		}
+	})
+	terminal := lvl == PanicLevel || lvl == FatalLevel || (lvl == DPanicLevel && dev)
+	vrt.Observe("reports", len(errOut.lines))
+	vrt.Assert("remaining-cores-of-a-tee-still-receive-the-entry", len(rec.st.writes) == 1)
+	vrt.Assert("failure-reported-on-the-error-output", len(errOut.lines) == 1)
+	if terminal && hookKind == 1 {
+		vrt.Assert("failure-reported-before-control-is-lost", seen == 1)
+	}
+	vrt.Cover("done")
 }
